@@ -250,7 +250,7 @@ func checkC11(c c11Case) (ci caseInfo, err error) {
 			}
 			for _, e := range ellipsisNames(p.model.Variables()) {
 				if op.C%3 == 1 {
-					fill[e] = op.C % 3
+					fill[e] = (op.C / 3) % 4 // 0 (the ellipsis just goes away) .. 3
 				}
 			}
 			var nm *model.Node
